@@ -244,7 +244,12 @@ func (p *Parser) WrapUntilTag(names ...string) (*NodeWrapper, *Parser, *Error) {
 						if p.Match(TokenSymbol, "%}") != nil {
 							// Okay, end the wrapping here
 							wrapper.Endtag = tagIdent.Val
-							return wrapper, newParser(p.template.name, tagArgs, p.template), nil
+							argParser := newParser(p.template.name, tagArgs, p.template)
+							if len(tagArgs) == 0 {
+								// an error about the (missing) arguments of this tag is reported at the tag's name
+								argParser.lastToken = tagIdent
+							}
+							return wrapper, argParser, nil
 						}
 						t := p.Current()
 						p.Consume()
